@@ -282,8 +282,12 @@ var validColumnTypes = map[string]bool{
 	"MONEY": true, "INET": true, "CIDR": true, "MACADDR": true,
 }
 
-// columnTypePattern matches valid column type definitions
-var columnTypePattern = regexp.MustCompile(`^[A-Za-z][A-Za-z0-9_ (),.]*$`)
+// columnTypePattern matches valid column type definitions: words, and
+// parenthesised groups that hold only digits, spaces and commas (VARCHAR(255),
+// NUMERIC(10, 2)). A comma or an unbalanced parenthesis outside such a group
+// would end the column definition inside CREATE TABLE (...) and start a new
+// column, constraint or table clause.
+var columnTypePattern = regexp.MustCompile(`^[A-Za-z][A-Za-z0-9_ .]*(\([0-9 ,]*\)[A-Za-z0-9_ .]*)*$`)
 
 // sanitizeColumnType validates a column type definition
 func sanitizeColumnType(colType string) (string, error) {
